@@ -282,7 +282,7 @@ impl Prop for C07 {
     }
     fn runs(&self, tier: Tier) -> u64 {
         match tier {
-            Tier::Quick => 320,
+            Tier::Quick => 960,
             Tier::Thorough => 6000,
         }
     }
